@@ -478,6 +478,24 @@ func serveStress(s *Summary, rng *rand.Rand, n int, out *traceWriter) {
 			}
 			c.SetStatus(204)
 		})
+		// a dynamic route without variables whose handler writes into the (empty) parameter map it was given: the map is
+		// the request's own
+		r.GET("/o[.html]", func(c *rux.Context) {
+			rl, ok := c.Req.Context().Value(reqLogKey{}).(*reqLog)
+			if !ok {
+				return
+			}
+			rid := c.Req.Header.Get("X-Req")
+			if c.Params != nil {
+				c.Params["who"] = rid
+				runtime.Gosched()
+				if c.Params["who"] != rid || len(c.Params) != 1 {
+					rl.copyBad = fmt.Sprintf("request %s wrote who=%s into its Params and reads back %v", rid, rid, c.Params)
+				}
+			}
+			rl.log = append(rl.log, []any{"main", "o"})
+			c.Text(200, "main:"+rid+":")
+		})
 		if t%4 >= 2 {
 			// an application's own 405 handler that edits the list of allowed methods it was given (its request's data)
 			r.NotAllowed(func(c *rux.Context) {
@@ -494,7 +512,7 @@ func serveStress(s *Summary, rng *rand.Rand, n int, out *traceWriter) {
 		var wg sync.WaitGroup
 		var mu sync.Mutex
 		bad := []string{}
-		kinds := []string{"a", "b", "nf", "b", "a", "na", "rd", "hb"}
+		kinds := []string{"a", "b", "nf", "b", "a", "na", "rd", "hb", "o"}
 		for w := 0; w < workers; w++ {
 			wg.Add(1)
 			wr := rand.New(rand.NewSource(rng.Int63()))
@@ -518,6 +536,9 @@ func serveStress(s *Summary, rng *rand.Rand, n int, out *traceWriter) {
 					if kind == "hb" {
 						path, reqMethod = servePath("b", id), "HEAD"
 					}
+					if kind == "o" {
+						path = []string{"/o", "/o.html"}[wr.Intn(2)]
+					}
 					if kind == "na" {
 						path = "/onlypost"
 					}
@@ -540,7 +561,7 @@ func serveStress(s *Summary, rng *rand.Rand, n int, out *traceWriter) {
 						r.ServeHTTP(rec, req)
 					}()
 					got, par := rl.log, rl.param
-					if wr.Intn(4) == 0 || kind == "rd" {
+					if wr.Intn(4) == 0 || kind == "rd" || kind == "o" {
 						rl.bg.Wait()
 						if rl.copyBad != "" {
 							mu.Lock()
@@ -553,12 +574,15 @@ func serveStress(s *Summary, rng *rand.Rand, n int, out *traceWriter) {
 						k2 = "nf"
 					}
 					want := soloLog(k2, sh[0], sh[2])
+					if kind == "o" {
+						want = append(soloLog("nf", sh[0], 0), []any{"main", "o"})
+					}
 					if kind == "hb" { // global middleware, then the HEAD route's handler (the route has no middleware of its own)
 						want = append(soloLog("nf", sh[0], 0), []any{"main", "hb"})
 					}
 					okc := (len(got) == 0 && len(want) == 0) || reflect.DeepEqual(got, want)
 					switch kind {
-					case "a", "rd":
+					case "a", "rd", "o":
 						okc = okc && rec.Body.String() == "main:"+rid+":"
 					case "b":
 						okc = okc && rec.Body.String() == "main:"+rid+":"+id && par == id
@@ -575,7 +599,7 @@ func serveStress(s *Summary, rng *rand.Rand, n int, out *traceWriter) {
 						mu.Unlock()
 					}
 					mu.Lock()
-					if out.n < 4000 && kind != "hb" {
+					if out.n < 4000 && kind != "hb" && kind != "o" {
 						out.emit(map[string]any{"op": "req", "kind": k2, "glen": sh[0], "mwlen": sh[2], "log": normLogOrEmpty(got), "code": rec.Code})
 					}
 					mu.Unlock()
